@@ -60,6 +60,32 @@ def gen(ctx):
                 add([(g.El(name=p), '>'), (child, '')], cfg)
                 add([(g.El(name=p), '>'), (g.El(name=None, repeat=2, **deco), '>'), (g.El(name=None, **deco), '')], cfg)
     add([(g.El(name=None, classes=['top']), '')], {})
+    # implicit names at top level under a context element (config.context['name'] plays the parent) and under a
+    # user-defined inline list (the lower-cased parent is looked up in options['inlineElements'] as given)
+    def add_ctx(stmt, cfg, parent, inline=None):
+        saved = set(g.INLINE)
+        if inline is not None:
+            g.INLINE.clear()
+            g.INLINE.update(inline)
+        try:
+            exp = g.preorder(g.unroll(g.denote_stmt(stmt), parent_name=parent))
+        finally:
+            g.INLINE.clear()
+            g.INLINE.update(saved)
+        abbr = g.render(stmt)
+        cases.append((abbr, cfg, exp))
+        ctx.nontrivial(abbr + '@' + repr(sorted(cfg.items(), key=str)))
+        ctx.cover('implicit-context' if inline is None else 'implicit-inline-list')
+    for cname in sorted(g.IMPLICIT_DOC) + ['div', 'em', 'UL', 'Table', 'custom', '']:
+        for deco in (dict(classes=['c']), dict(id='i')):
+            st = [(g.El(name=None, **deco), '>'), (g.El(name=None, **deco), '+'), (g.El(name='b', **deco), '>'),
+                  (g.El(name=None, repeat=2, **deco), '^^^'), (g.El(name=None, **deco), '')]
+            for fmt in (True, False):
+                add_ctx(st, {'context': {'name': cname}, 'options': {'output.format': fmt}}, cname)
+    for inl in (['x-y', 'custom'], ['X'], []):
+        for p in ('x-y', 'custom', 'X', 'x', 'em', 'div'):
+            st = [(g.El(name=p), '>'), (g.El(name=None, classes=['c']), '>'), (g.El(name=None, id='i'), '')]
+            add_ctx(st, {'options': {'inlineElements': list(inl), 'output.format': False}}, None, inline=[w for w in inl])
     # snippet-backed names (one element of the same name) and the `/` mark, as parents and used twice
     from emmet.markup.implicit_tag import ELEMENT_MAP
     snips = [s for s in g.same_name_snippets() if s[0] not in ELEMENT_MAP or s[0] in g.IMPLICIT_DOC]
@@ -98,11 +124,12 @@ def gen(ctx):
 
 
 def run(ctx):
-    ok = ctx.build(['props/C01.vo', 'props/C01String.vo', 'props/C01Expand.vo', 'run/MarkupRun.vo'])
+    ok = ctx.build(['props/C01.vo', 'props/C01String.vo', 'props/C01Expand.vo', 'props/C01Implicit.vo', 'run/MarkupRun.vo'])
     if ok:
         ctx.obligations('props/C01.v')
         ctx.obligations('props/C01String.v')
         ctx.obligations('props/C01Expand.v')
+        ctx.obligations('props/C01Implicit.v')
     model = ctx.model('markup') if ok else None
     ctx.cov['rule'] = ('statements generated from an AST (elements, > + ^ groups, *N, nameless elements), rendered to text; '
                        'exhaustive operator skeletons up to the stated size, implicit-name table, random large statements; '
@@ -110,8 +137,37 @@ def run(ctx):
                        'the output (tag parser) = independent denotation of the AST. Excluded shapes: ")>" (child of a group).')
     cases = gen(ctx)
     impl = run_cases(ctx, model, cases, 'C01', oracle)
+    poisoned_sequences(ctx, cases)
     for (abbr, cfg, exp), r in list(zip(cases, impl))[200:204]:
         ctx.sample({'abbr': abbr, 'config': cfg, 'denoted': exp[:8], 'output': r[1][:120] if r[0] == 'ok' else r})
+
+
+POISON_ABBRS = ['p{${1', 'a[href=${1', 'p{${1:text', 'a[b="x', '(a>b', 'a{t', 'ul>li[title="x', 'ul>li)', 'div>p?', 'a[b=${', '{${x']
+
+
+def poisoned_sequences(ctx, cases):
+    """The tree of an expansion does not depend on earlier calls, in particular not on earlier REJECTED abbreviations
+    (unterminated fields, brackets, quotes): every few cases a malformed abbreviation is expanded first."""
+    from markup_util import impl_expand
+    rng = ctx.rng
+    n = 0
+    step = max(1, len(cases) // (400 if ctx.tier == 'quick' else 4000))
+    for k in range(0, len(cases), step):
+        abbr, cfg, meta = cases[k]
+        poison = rng.choice(POISON_ABBRS)
+        impl_expand(poison, cfg)
+        r = impl_expand(abbr, cfg)
+        n += 1
+        ctx.count_eval()
+        ctx.cover('C01:after-rejected-abbreviation')
+        bad = oracle(abbr, cfg, meta, r)
+        if bad:
+            ctx.property_failure('C01:after-rejected:%s|%s' % (abbr, poison),
+                                 'C01 expand(%r) right after the rejected abbreviation %r: %s' % (abbr, poison, bad),
+                                 {'component': 'C01-sequence', 'abbr': abbr, 'config': cfg, 'poison': poison, 'meta': meta,
+                                  'impl': repr(r)[:500], 'why': bad})
+            break
+    ctx.cov['after_rejected_sequences'] = n
 
 
 def replay(ctx, obj):
@@ -120,6 +176,12 @@ def replay(ctx, obj):
         print('replay names a broken obligation, no input: %s' % str(rp)[:300])
         return 1
     from markup_util import impl_expand
+    if rp.get('component') == 'C01-sequence':
+        impl_expand(rp['poison'], rp['config'])
+        r = impl_expand(rp['abbr'], rp['config'])
+        bad = oracle(rp['abbr'], rp['config'], [tuple(x) for x in rp['meta']], r)
+        print('expand(%r) after rejected %r -> %r : %s' % (rp['abbr'], rp['poison'], r, bad or 'property holds'))
+        return 1 if bad else 0
     import emmet.abbreviation  # noqa
     # re-derive the denotation from the text is not possible; re-run the recorded comparison
     r = impl_expand(rp['abbr'], rp['config'])
